@@ -128,10 +128,11 @@ def ancestralSet (g : MG Name) (q : Event) : Except Err (List Var) := q.foldlM (
 /-- **multi-world**: one graph vertex occurs as two different counterfactual variables in `An(Y_*)` -/
 def multiWorld (D : List Var) : Bool := D.any fun a => D.any fun b => decide (a.name = b.name ∧ a ≠ b)
 
-/-- **literal-bound**: a literal subscript of the query names a vertex of `An(Y_*)` that is summed out (not an outcome) -/
+/-- **literal-bound**: an unstarred literal subscript `-X` of the query names a vertex of `An(Y_*)` that is summed out
+(not an outcome), so the summation index captures it (a starred subscript `+X` cannot be captured) -/
 def literalBound (q : Event) (D : List Var) : Bool :=
   q.any fun p => p.1.ivs.any fun i =>
-    decide (i.name ∈ D.map (·.name)) && decide (i.name ∉ q.map (·.1.name))
+    !i.star && decide (i.name ∈ D.map (·.name)) && decide (i.name ∉ q.map (·.1.name))
 
 /-- **outcome-parent-value**: a member `W_z` of `An(Y_*)` has a parent `P` that it does not intervene on (so the
 conversion ADDS the subscript `-P`) and `P` is an outcome whose event value is not `-P` (it is `+P` or `None`) -/
